@@ -102,6 +102,7 @@ func TestVerifC12(t *testing.T) {
 		EnumAt: func(tier string, i int) []int {
 			return []int{c12StatDen - 1, i}
 		},
+		EnumLabels: func(string, int) []string { return []string{"statistical", "stat-config"} },
 		Runs: map[string]int{"quick": 40000, "thorough": 2000000},
 		Real: []string{
 			"regprocessor.RegisterBidirectional / processBdReq / processC2SWrapper / sendToZMQ (struct literal built the way NewRegProcessor builds it: validateOverridePercentages, splitOverrideSubnets, processOverrideSubnetsWeights on a TOML-decoded []Subnet)",
